@@ -8,10 +8,13 @@
    One behaviour = one upload script; uploads are sequential (each is processed by the channel goroutine
    before the next one starts, as in the driver).
 
-   Fixed = FALSE: the arithmetic of the repository (round trip through the master timescale with two
-   integer divisions; number = nearest(time / floor(segment duration)) - startNr).
-   Fixed = TRUE : the arithmetic of proposed_fixes/X02-*.diff (shift converted once; number = nearest grid
-   index in exact arithmetic, startNr only applied to incoming numbers).
+   Arith = "code"    : the arithmetic of the repository now (after the fix commits 485e2ba, 1f99b5d): the shift is
+                       converted once to the track's timescale (masterTimeShift*tsIn/tsMaster, one rounding), the number
+                       is the nearest grid index in exact arithmetic, minus startNr.
+   Arith = "proposed": the same without the startNr subtraction (proposed_fixes/X02-number-from-time-without-startnr.diff,
+                       open finding: a maintainer's call).
+   Arith = "orig"    : the arithmetic before the fix commits, kept as design history (round trip through the master
+                       timescale with two integer divisions; number = nearest(time / floor(segment duration)) - startNr).
    64-bit overflow is not modelled (TLC integers are 32 bit; the numbers here are small).
 
    Invariants: the clauses of the oracle that do not need the stored file (X02.shift.*, X02.time.*, X02.grid,
@@ -20,7 +23,8 @@
    with real fMP4 segments (scaled to 90000/48000, 12800/48000, ... ticks) - the prediction is only compared for
    fidelity, never for a verdict.                                                                          *)
 EXTENDS Integers, Sequences, FiniteSets, TLC, Json, ReceiverShiftOps
-CONSTANTS Tm, Ta, DSecs, T0s, Ks, StartNrs, Shorts, NSeg, Fixed
+CONSTANTS Tm, Ta, DSecs, T0s, Ks, StartNrs, Shorts, NSeg, Arith
+ASSUME Arith \in {"code", "proposed", "orig"}
 VARIABLES par, step, chan, stored
 vars == <<par, step, chan, stored>>
 
@@ -53,12 +57,12 @@ OutOf(x, j, c) ==
        sh   == c.ss # 0 \/ c.ts # 0
        tx   == Ts(x)
        tsh  == IF ~sh \/ c.ts = 0 THEN tin
-               ELSE IF Fixed THEN tin + (c.ts * tx) \div Tm
+               ELSE IF Arith # "orig" THEN tin + (c.ts * tx) \div Tm
                ELSE (((IF tx # Tm THEN (tin * Tm) \div tx ELSE tin) + c.ts) * tx) \div Tm
        sd   == (c.D * tx) \div Tm
        n    == IF ~sh THEN NIn(j) - par.startNr
-               ELSE IF Fixed THEN (2 * tsh * Tm + c.D * tx) \div (2 * c.D * tx)
-               ELSE Nearest(tsh, sd) - par.startNr
+               ELSE IF Arith = "orig" THEN Nearest(tsh, sd) - par.startNr
+               ELSE (2 * tsh * Tm + c.D * tx) \div (2 * c.D * tx) - (IF Arith = "code" THEN par.startNr ELSE 0)
    IN [tr |-> x, j |-> j, n |-> n, nin |-> NIn(j), t |-> tsh, tin |-> tin, dur |-> DurIn(x, j), post |-> c.tuned, sh |-> sh]
 
 (* ---- channel.go: the channel goroutine handles the completed segment r *)
@@ -109,7 +113,7 @@ TimeInv(r) == LET x == r.tr
               IN TimeOK(ExpTime(tin, OTimeShift, V, S), got, ex, V + 2 * U(x), S)
 InvTime == \A i \in DOMAIN stored : Post(stored[i]) => TimeInv(stored[i])
 \* the same, demanding the exact shift whenever the shift itself is a whole number of the track's ticks
-\* (violated by the repository's round trip through the master timescale: design counterexample)
+\* (holds for the single conversion of the present code; the original round trip also kept it for grid-coinciding tracks)
 InvTimeExactShift == \A i \in DOMAIN stored : LET r == stored[i] IN
      (Post(r) /\ (OTimeShift * V) % U(r.tr) = 0) => Pair(r.tr, r.t) = ExpTime(Pair(r.tr, r.tin), OTimeShift, V, S)
 \* X02.grid / X02.number: every stored (and therefore every listed) (n, t) after tune-in is on the grid
